@@ -469,11 +469,20 @@ TREE_RULE = "one case = one item tree: built by seeded random sequences of publi
 def C03(run):
     q = run.quick()
     mc = tlc_mc(run, "MC_RoundTrip", "MC_RoundTrip" if q else "MC_RoundTrip_wide", workers=NCPU, timeout=3000)
+    # scalars made through cbor_new_X + cbor_set_X / cbor_mark_X: histories replayed through CborScalars; under C03 only the
+    # serialization clause is judged (the getter clauses of the same trace spec go beyond what C03 states: tools/dev/t_scalars.py)
+    mcs_ = tlc_mc(run, "MC_Scalars", workers=2)
+    libd = build_lib(run, "dbg")
+    exes = build_harness(run, libd, "h_scalars", ["vh.c", "h_scalars.c"])
+    sc = run.path("scalars.ndjson")
+    _record_simple(run, exes, ["1500" if q else "30000"], sc, "scalar construction histories")
+    sres = tracecheck(run, "Trace_Scalars", sc, boundary=b'{"e":"sc","op":"New', env={"VERIF_JUDGE": "C03"})
+    _report_rejects(run, sres, "serialization of a scalar built through setters", lambda ln, r: "scalar op=%s w=%s ser=%s" % (ln.get("op"), ln.get("w"), ln.get("ser")))
     mc, res, out, n, cases, shapes, nontriv = _ser_check(run, "C03", [], [("api", 2500 if q else 40000), ("dec", 2500 if q else 40000), ("edge@8", 1), ("edge", 3 if q else 0)], "serialization / round trip", mc)
     write_evidence(run, "model_checking", {
         "states": mc["distinct"], "transitions": mc["generated"], "traces_validated_against_impl": cases - len(res["rejects"]),
         "samples": _sample_lines(out, 2, lambda l: '"nc":2' in l), "evaluations": cases, "distinct_nontrivial": nontriv, "distinct_shapes": shapes,
-        "rule": TREE_RULE, "trace_lines_validated_by_TLC": res["lines"], "exhaustive": False},
+        "rule": TREE_RULE, "trace_lines_validated_by_TLC": res["lines"] + sres["lines"], "scalar_setter_history_lines": sres["lines"], "exhaustive": False},
         ["CborEncode.Encode (transcribed from RFC 8949 section 3, Appendix A/B) is the oracle, evaluated by TLC on each logged tree; MC_RoundTrip checks it against the independently written decoding half of the spec on every tree of a bounded space",
          "trees are logged through public getters; the reload uses an exactly-sized copy of the serializer's output"])
 
